@@ -55,13 +55,22 @@ def returns_true_for(ctx, m, op):
             else:
                 return ['<unknown>']
         return []
+    def value(v):
+        """constant / [not] (param ==|!= 'const') evaluated for this op"""
+        if isinstance(v, ast.Constant):
+            return v.value
+        if isinstance(v, ast.UnaryOp) and isinstance(v.op, ast.Not):
+            x = value(v.operand)
+            return (not x) if isinstance(x, bool) else '?'
+        if isinstance(v, ast.Compare) and len(v.ops) == 1 and isinstance(v.left, ast.Name) and v.left.id == m.params[1] \
+                and isinstance(v.comparators[0], ast.Constant) and isinstance(v.ops[0], (ast.Eq, ast.NotEq)):
+            eq = v.comparators[0].value == op
+            return eq if isinstance(v.ops[0], ast.Eq) else not eq
+        return '?'
     vals = ev(m.node.body)
     out = set()
     for v in vals:
-        if isinstance(v, ast.Constant):
-            out.add(v.value)
-        else:
-            out.add('?')
+        out.add(value(v) if isinstance(v, ast.AST) else '?')
     return out
 
 
